@@ -647,6 +647,12 @@ class VAMTransmissionManagement:
                 - coming closer than Minimum Safe Longitudinal Distance (MSLoD) longitudinally;
                 - coming closer than Minimum Safe Vertical Distance (MSVD) vertically.
         """
+        if self.clustering_manager is not None and "lat" in tpv and "lon" in tpv:
+            # The clustering state machine must be advanced once per generation check cycle
+            # (join / leave notification phases, break-up warning, cluster-leader-lost timeout)
+            self.clustering_manager.update(
+                tpv["lat"], tpv["lon"], tpv.get("speed", 0.0), tpv.get("track", 0.0)
+            )
         vam_to_send = VAMMessage()
         vam_to_send.fullfill_with_device_data(self.device_data_provider)
         vam_to_send.fullfill_with_tpv_data(tpv)
